@@ -122,7 +122,7 @@ def main():
             print(json.dumps(meta, indent=1))
             if not confirmed:
                 print("%s-%s: NOT CONFIRMED (demo tail with change: %s)" % (pid, k, outa[-600:]))
-            dst = os.path.join("/verif/seeded", "%s-%s%s" % (pid, os.environ.get("WAVE", ""), k))
+            dst = os.path.join("/verif/seeded", "%s%s" % (os.environ.get("NAME") or "%s-%s" % (pid, os.environ.get("WAVE", "")), k))
             os.makedirs(dst, exist_ok=True)
             shutil.copy(patch, os.path.join(dst, "patch.diff"))
             shutil.copy(demo, os.path.join(dst, "demo_test.go"))
